@@ -220,7 +220,7 @@ pub fn run(tier: Tier) -> RunOutcome {
     if chance("infb", 1, 5) {
         crate::props::c20::plant_infinite_bounds(&mut prob, bound, false);
     }
-    let eff = effective(&prob, bound, settings.presolve_enable);
+    let mut eff = effective(&prob, bound, settings.presolve_enable);
     with_sim(|s| s.clocks[0] = Clock::new(ClockProfile::fine(5)));
     api(format!("problem {}", prob.describe()));
     api(format!("settings {}", describe_settings(&settings)));
@@ -234,6 +234,62 @@ pub fn run(tier: Tier) -> RunOutcome {
     if solved_first && sv_solve(1, &mut solver).is_err() {
         probe("c19_panic_skipped");
         return out;
+    }
+
+    // "the problem that solver was solving" includes accepted in-place updates
+    if eff.n_dropped == 0 && chance("update_before_save", 1, 3) {
+        let nupd = 1 + choose("nupd", 2);
+        for _ in 0..nupd {
+            let which = choose("upd_part", 4);
+            let indexed = flag("upd_indexed");
+            let bump = |v: &[f64]| -> Vec<f64> {
+                v.iter()
+                    .map(|x| if chance("chg", 1, 2) { x + 0.25 * with_sim(|s| s.cs.small("dv")) } else { *x })
+                    .collect()
+            };
+            let ok = match which {
+                0 => {
+                    let nv = bump(&prob.q);
+                    if indexed && !nv.is_empty() {
+                        let i = choose("idx", nv.len() as u32) as usize;
+                        prob.q[i] = nv[i];
+                        solver.update_q(&(vec![i], vec![nv[i]])).is_ok()
+                    } else {
+                        prob.q = nv.clone();
+                        solver.update_q(&nv).is_ok()
+                    }
+                }
+                1 => {
+                    // stay below the infinity bound (update_b does not cap; see DESIGN O1)
+                    let nv: Vec<f64> = bump(&prob.b).iter().map(|v| v.min(1e9)).collect();
+                    prob.b = nv.clone();
+                    solver.update_b(&nv).is_ok()
+                }
+                2 => {
+                    let nv: Vec<f64> = prob.p_triu.nzval.iter().map(|v| v * 2.0).collect();
+                    prob.p_triu.nzval = nv.clone();
+                    prob.p_user = prob.p_triu.clone();
+                    solver.update_P(&nv).is_ok()
+                }
+                _ => {
+                    let nv = bump(&prob.a.nzval);
+                    if indexed && !nv.is_empty() {
+                        let i = choose("idx", nv.len() as u32) as usize;
+                        prob.a.nzval[i] = nv[i];
+                        solver.update_A(&(vec![i], vec![nv[i]])).is_ok()
+                    } else {
+                        prob.a.nzval = nv.clone();
+                        solver.update_A(&nv).is_ok()
+                    }
+                }
+            };
+            if !ok {
+                probe("c19_update_rejected_skipped");
+                return out;
+            }
+            probe("c19_updates_before_save");
+        }
+        eff = effective(&prob, bound, settings.presolve_enable);
     }
 
     // the user may edit public settings fields after construction; they are saved as they
